@@ -22,7 +22,7 @@ fn viol(t: &mut Tally, monitor: &str, sig: &str, detail: String, extra: J) {
     });
 }
 
-const STYLES: u8 = 5;
+const STYLES: u8 = 8;
 
 pub fn secret_of_len(r: &mut Rng, len: usize, style: u8) -> String {
     match style {
@@ -61,6 +61,37 @@ pub fn secret_of_len(r: &mut Rng, len: usize, style: u8) -> String {
             }
             s
         }
+        5 => {
+            // a secret that itself starts with the chain's prefix, or with a look-alike of it
+            let head = *r.pick(&["AWS4", "aws4", "AWS", "AWS4AWS4", "4SWA"]);
+            let mut s: String = head.chars().take(len).collect();
+            let rest = len - s.len();
+            s.push_str(&r.string_from(B64ISH, rest));
+            s
+        }
+        6 => {
+            // base64 padding at the end
+            let pad = (1 + r.usize_below(2)).min(len);
+            let mut s = r.string_from(B64ISH, len - pad);
+            s.push_str(&"=".repeat(pad));
+            s
+        }
+        7 => {
+            // any ASCII byte (punctuation, quotes, backslash, DEL, controls) and 3- / 4-byte scalars, padded with 'x'
+            let mut s = String::new();
+            while s.len() < len {
+                let c = match r.below(6) {
+                    0 => *r.pick(&['€', '日', '\u{ffff}', '\u{1f600}', '\u{10ffff}']),
+                    _ => (r.below(128) as u8) as char,
+                };
+                if s.len() + c.len_utf8() <= len {
+                    s.push(c);
+                } else {
+                    s.push('x');
+                }
+            }
+            s
+        }
         _ => {
             // multi-byte content: pad to the exact byte length
             let mut s = String::new();
@@ -81,8 +112,14 @@ pub fn secret_of_len(r: &mut Rng, len: usize, style: u8) -> String {
 
 /// from_str for capacity M with byte lengths 0..=M+8: Ok iff len + 4 <= M, Err(KeyTooLongError) otherwise, no panic.
 fn capacity_probe<const M: usize>(t: &mut Tally, r: &mut Rng) {
-    for len in 0..=(M + 8) {
+    // every length around the capacity, then lengths far beyond it (where an 8- or 16-bit length would wrap)
+    let mut lens: Vec<usize> = (0..=(M + 8)).collect();
+    lens.extend([252usize, 253, 255, 256, 257, 260, 296, 300, 511, 512, 4096, 65_532, 65_535, 65_536, 65_540].iter().filter(|l| **l > M + 8));
+    for len in lens {
         for style in 0..STYLES {
+            if len > 600 && style > 1 {
+                continue;
+            }
             let s = secret_of_len(r, len, style);
             let res = catch_unwind(AssertUnwindSafe(|| KSecretKey::<M>::from_str(&s)));
             t.eval();
@@ -112,7 +149,45 @@ fn capacity_probe<const M: usize>(t: &mut Tally, r: &mut Rng) {
                     format!("KSecretKey::<{}>::from_str refused a secret of {} bytes: {}", M, len, e),
                     J::obj().set("capacity", J::i(M)).set("len", J::i(len)),
                 ),
-                Ok(Ok(_)) => {
+                Ok(Ok(k)) => {
+                    // two independent constructions are equal; a secret differing in one byte (first, middle, last), a
+                    // proper prefix, and the secret plus a trailing NUL are different keys — for every capacity
+                    let again: Option<KSecretKey<M>> = catch_unwind(AssertUnwindSafe(|| KSecretKey::<M>::from_str(&s).ok())).unwrap_or(None);
+                    if again.as_ref() != Some(&k) {
+                        viol(t, "capacity", &format!("eq/M{}", M), format!("two KSecretKey::<{}> built from the same {}-byte secret are not equal", M, len), J::obj().set("secret", J::s(s.clone())));
+                    }
+                    if s.is_ascii() && len > 0 {
+                        let mut variants: Vec<String> = Vec::new();
+                        for pos in [0, len / 2, len - 1] {
+                            let mut b = s.clone().into_bytes();
+                            b[pos] = if b[pos] == b'Z' {
+                                b'Y'
+                            } else {
+                                b'Z'
+                            };
+                            variants.push(String::from_utf8(b).unwrap());
+                        }
+                        variants.push(s[..len - 1].to_string());
+                        variants.push(format!("{}\u{0}", s));
+                        for v in variants {
+                            if v == s {
+                                continue;
+                            }
+                            let built = catch_unwind(AssertUnwindSafe(|| KSecretKey::<M>::from_str(&v)));
+                            let Ok(built) = built else {
+                                let (m, l) = take_panic();
+                                viol(t, "capacity", &format!("panic/M{}", M), format!("KSecretKey::<{}>::from_str(secret of {} bytes) panicked: {} at {}", M, v.len(), m, l), J::obj().set("capacity", J::i(M)).set("len", J::i(v.len())));
+                                continue;
+                            };
+                            if let Ok(o) = built {
+                                if o == k {
+                                    viol(t, "capacity", &format!("ne/M{}", M), format!("KSecretKey::<{}> built from {:?} equals the one built from {:?}", M, v, s), J::obj().set("secret", J::s(s.clone())));
+                                } else {
+                                    t.count("distinct_secrets_give_distinct_keys");
+                                }
+                            }
+                        }
+                    }
                     t.count(&format!("capacity_ok/M{}", M));
                     t.nontrivial(crate::prng::fnv64(format!("cap|{}|{}|{}", M, len, style).as_bytes()));
                 }
@@ -127,6 +202,50 @@ fn capacity_probe<const M: usize>(t: &mut Tally, r: &mut Rng) {
             }
         }
     }
+}
+
+/// The same key objects asked for several regions and services in a row, and for the first pair again: every answer is the
+/// chain's (a memo keyed by less than all of secret, date, region and service would show).
+fn chain_sequence(t: &mut Tally, r: &mut Rng, secret: &str, date: NaiveDate) {
+    let ds = date.format("%Y%m%d").to_string();
+    let Ok(s) = KSecretKey::from_str(secret) else {
+        return;
+    };
+    let pairs: Vec<(String, String)> = {
+        let rg = r.pick(&crate::gen::REGIONS).to_string();
+        let rg2 = r.pick(&crate::gen::REGIONS).to_string();
+        let sv = r.pick(&crate::gen::SERVICES).to_string();
+        let sv2 = r.pick(&crate::gen::SERVICES).to_string();
+        vec![(rg.clone(), sv.clone()), (rg.clone(), sv2.clone()), (rg2.clone(), sv.clone()), (rg2, sv2), (rg, sv)]
+    };
+    let kd = s.to_kdate(date);
+    for (k, (rg, sv)) in pairs.iter().enumerate() {
+        t.eval();
+        let want = sha::derive(secret.as_bytes(), &ds, rg.as_bytes(), sv.as_bytes());
+        let kr = kd.to_kregion(rg);
+        let got = [
+            (*s.to_ksigning(date, rg, sv).as_ref(), want.ksigning, "secret.to_ksigning"),
+            (*s.to_kservice(date, rg, sv).as_ref(), want.kservice, "secret.to_kservice"),
+            (*s.to_kregion(date, rg).as_ref(), want.kregion, "secret.to_kregion"),
+            (*kd.to_ksigning(rg, sv).as_ref(), want.ksigning, "kdate.to_ksigning"),
+            (*kd.to_kservice(rg, sv).as_ref(), want.kservice, "kdate.to_kservice"),
+            (*kr.to_ksigning(sv).as_ref(), want.ksigning, "kregion.to_ksigning"),
+            (*kr.to_kservice(sv).to_ksigning().as_ref(), want.ksigning, "kservice.to_ksigning"),
+        ];
+        for (g, w, name) in got {
+            if g != w {
+                viol(
+                    t,
+                    "derivation",
+                    &format!("sequence/{}", name),
+                    format!("call {} of a sequence on the same key objects: {}({:?}, {:?}) = {} but the HMAC chain gives {}", k, name, rg, sv, sha::hex(&g), sha::hex(&w)),
+                    J::obj().set("secret", J::s(secret)).set("date", J::s(ds.clone())).set("sequence", J::s(format!("{:?}", pairs))),
+                );
+                return;
+            }
+        }
+    }
+    t.count("derivation_sequences_on_shared_key_objects");
 }
 
 const REGION_POOL: [&str; 8] = ["us-east-1", "", "x", "eu-west-1", "日本-リージョン", "with\0nul", "line\nbreak", "Us-East-1"];
@@ -219,6 +338,9 @@ fn shard(seed: u64, shard: u64, shards: u64, tier: Tier) -> Tally {
         capacity_probe::<44>(&mut t, &mut r);
         capacity_probe::<64>(&mut t, &mut r);
         capacity_probe::<128>(&mut t, &mut r);
+        capacity_probe::<256>(&mut t, &mut r);
+        capacity_probe::<260>(&mut t, &mut r);
+        capacity_probe::<300>(&mut t, &mut r);
     }
     // every secret length 0..=40 (capacity of the default key type) × 3 contents, on a fixed date
     if shard == 1 % shards {
@@ -277,6 +399,11 @@ fn shard(seed: u64, shard: u64, shards: u64, tier: Tier) -> Tally {
             _ => r.pick(&crate::gen::SERVICES).to_string(),
         };
         chain(&mut t, &s, y, m, d, &region, &service);
+        if i % 8 == 0 {
+            if let Some(date) = NaiveDate::from_ymd_opt(y, m, d) {
+                chain_sequence(&mut t, &mut r, &s, date);
+            }
+        }
     }
     t
 }
@@ -316,7 +443,7 @@ pub fn run(tier: Tier) -> i32 {
     ctx.exhaustive("every calendar day of the listed years", true);
     let rep = Report {
         level: "exploration",
-        rule: "Direct calls of the key API under panic capture: KSecretKey::<M>::from_str for 11 capacities × every byte length 0…M+8 × 5 contents (ASCII run, random base64-like, multi-byte UTF-8, ASCII white space / control characters at the edges and inside, Unicode white space or case-mapping letters at the end); for the default capacity every secret length 0–40 and every calendar day of years 1, 2000, 2024, 9999 (thorough: also 4, 999, 1000, 1900, 2023, 2100) plus random days in 1–9999, regions/services incl. empty, 1 KiB, multi-byte, embedded NUL/newline, and arbitrary text built from pieces meaningful to the enclosing credential-scope syntax ('/', the terminator, the other components' values, separators, upper case); all 10 derivation routes compared with an independent HMAC-SHA256 chain, read-back of the secret, copy equality. Distinct = distinct (secret, date, region, service) tuples whose 10 routes all matched, plus distinct (capacity, length, content) probes decided correctly.".into(),
+        rule: "Direct calls of the key API under panic capture: KSecretKey::<M>::from_str for 11 capacities × every byte length 0…M+8 × 8 contents (ASCII run, random base64-like, multi-byte UTF-8, ASCII white space / control characters at the edges and inside, Unicode white space or case-mapping letters at the end, an 'AWS4'-like prefix, trailing '=', any ASCII byte with 3- and 4-byte scalars), also lengths far beyond the capacity (252…65 540), 14 capacities up to 300, two constructions equal and one-byte-different / prefix / NUL-suffixed secrets unequal for every capacity; for the default capacity every secret length 0–40 and every calendar day of years 1, 2000, 2024, 9999 (thorough: also 4, 999, 1000, 1900, 2023, 2100) plus random days in 1–9999, regions/services incl. empty, 1 KiB, multi-byte, embedded NUL/newline, and arbitrary text built from pieces meaningful to the enclosing credential-scope syntax ('/', the terminator, the other components' values, separators, upper case); all 10 derivation routes compared with an independent HMAC-SHA256 chain, sequences of derivations on the same key objects for changing regions and services, read-back of the secret, copy equality. Distinct = distinct (secret, date, region, service) tuples whose 10 routes all matched, plus distinct (capacity, length, content) probes decided correctly.".into(),
         assumptions: vec!["the harness's own SHA-256/HMAC (self-tested on FIPS 180-4 / RFC 4231 vectors and the AWS key-derivation example)".into()],
         extra: J::obj().set("calibrated_vectors", J::i(pre.unwrap_or(0) as i64)),
     };
